@@ -150,14 +150,16 @@ CLAIMS = {
              "counterexample becomes a VIOLATION only after it has been reproduced on the real loader.",
         ref="DESIGN.md 4 (C18), 10.7", note=TB + "; payloads are synthetic, _sha256 is replaced by a table for registry-level loads (and checked against hashlib separately)"),
     "C19": dict(
-        technique="TLA+ specification of the remote loader as processes x network x filesystem x crashes (DatasetCache.tla) model-checked by TLC incl. liveness; TLC trace validation of real forked, step-gated loaders with real SIGKILLs",
+        technique="TLA+ specification of the remote loader as processes x network x filesystem x crashes (DatasetCache.tla) model-checked by TLC incl. liveness (safety clauses also as an inductive invariant with Apalache); TLC trace validation of real forked, step-gated loaders with real SIGKILLs",
         category="model_checking",
         text="TLC explores every interleaving, fault sequence and crash point of 1 and 2 (thorough: 3) loader processes (13 step boundaries, "
              "Crash at each, probe loads afterwards) checking CacheSound, NeverUnverified, OfflineWhenCached, ServedWhenCached, RetryBound, NoCrossTalk and, "
              "under fairness, LaterLoadSucceeds; the labelled state graph is dumped and a transition cover plus seeded walks, simulated "
              "many-process behaviours and random schedules are replayed into real forked loader processes gated at the step boundaries, "
              "killed with SIGKILL at the chosen boundary; after every step the cache slots, temp files, network calls and results are "
-             "recorded and the traces are validated by TLC (C19.* clauses = violation, step-level deviation = drift).",
+             "recorded and the traces are validated by TLC (C19.* clauses = violation, step-level deviation = drift). The safety clauses "
+             "are additionally discharged as an inductive invariant of the same module by Apalache (base, step, negative control) for 4+1 "
+             "(thorough: 8+2) processes at any depth - a statement about the specification only.",
         ref="DESIGN.md 4 (C19), 10.7", note=TB + "; step boundaries exist where module-level names of _base are rebound; the kernel provides fork, SIGKILL and rename atomicity"),
     "C20": dict(
         technique="TLA+ argument checks (Weaver!Rejects, function-level judges) with the frame condition as a TLC action property; TLC trace validation of refused real calls with bitwise before/after snapshots",
